@@ -543,6 +543,27 @@ func genRender(r *rand.Rand, n int, emit func(Op)) {
 				}
 				docs = append(docs, map[string]any{"media": media, "src": src})
 			}
+			if r.Intn(4) == 0 {
+				/* what one document defines must not reach another: a Markdown document that
+				   uses link labels it does not define, created before and after one that defines
+				   them (and footnote-like, heading and emphasis state likewise) */
+				labels := []string{"alpha", "1", "changelog", "Home Page", "x"}
+				uses := ""
+				defs := ""
+				for _, l := range labels {
+					if r.Intn(3) != 0 {
+						uses += pick(r, []string{"see [" + l + "] ", "see [" + l + "][] ", "see [text][" + l + "] ", "![pic][" + l + "] ", "[" + strings.ToUpper(l) + "] "})
+						defs += "[" + l + "]: https://t.example/" + strings.ReplaceAll(l, " ", "-") + pick(r, []string{"", " \"title\"", "\n"}) + "\n"
+					}
+				}
+				user := map[string]any{"media": "markdown", "src": "intro " + uses + "end\n\nsecond paragraph [unrelated]\n"}
+				definer := map[string]any{"media": "markdown", "src": "a document of its own [alpha]\n\n" + defs}
+				docs = []any{user, definer, map[string]any{"media": "markdown", "src": user["src"]}}
+				if r.Intn(2) == 0 {
+					docs = append(docs, map[string]any{"media": pick(r, []string{"html", "markdown"}), "src": user["src"]})
+				}
+				k = len(docs)
+			}
 			seq := []any{}
 			ws := genWidthSeq(r)
 			for s := 4 + r.Intn(20); s > 0; s-- {
@@ -551,6 +572,12 @@ func genRender(r *rand.Rand, n int, emit func(Op)) {
 					w = genWidth(r)
 				}
 				seq = append(seq, []any{r.Intn(k), w})
+				if r.Intn(3) == 0 {
+					/* every document at this very width */
+					for d := 0; d < k; d++ {
+						seq = append(seq, []any{d, w})
+					}
+				}
 			}
 			emit(Op{"op": "renderpair", "docs": docs, "seq": seq})
 			continue
